@@ -3,7 +3,9 @@
 #  1. every obligation of the property with 60 s limits, all three back ends must agree;
 #  2. (report only) the scenario drivers of the property - replays of the defects found so far -
 #     run against the real code of /repo through go test -overlay;
-#  3. (report only) the must-fail corpus of the property on scratch copies of /repo.
+#  3. (report only) the must-fail corpus of the property on scratch copies of /repo;
+#  4. (report only) a sample of automatically generated mutants of the property's functions
+#     (selftest/mutants.sh; the sample is chosen by VERIF_SEED) on scratch copies.
 # Only step 1 decides the exit code.
 set -u
 cd "$(dirname "$0")"
@@ -22,5 +24,8 @@ done
 if [ -x selftest/run.sh ] && ls seeded | grep -q "^$PROP-"; then
   echo "must-fail corpus for $PROP (on scratch copies of /repo):"
   selftest/run.sh "$PROP" | sed 's/^/  /' || true
+fi
+if [ -x selftest/mutants.sh ]; then
+  selftest/mutants.sh "$PROP" "${VERIF_MUTANTS:-10}" "${VERIF_SEED:-1}" || true
 fi
 exit $rc
